@@ -3,6 +3,7 @@
 // whose first stage converges loosely and whose last stage is cut off, a Picard stage last, a Newton stage last.  When
 // `solve` reports success the residual of the STORED profile, re-evaluated through the public API, must be below the
 // tolerance of the last stage (with a slack of 10 for the round trip through SI units); anything else: `WITNESS ...`.
+// The same for PoreProfile::solve (hard-sphere fluid in a hard-wall slit pore).
 #![cfg(all(feature = "dft", feature = "pcsaft"))]
 use feos::pcsaft::{PcSaftFunctional, PcSaftParameters};
 use feos_core::parameter::{IdentifierOption, Parameter};
@@ -38,6 +39,37 @@ fn vx_witness_dft_solver() {
                 if !(res < 10.0 * tol) {
                     n_bad += 1;
                     if n_bad <= 6 { println!("WITNESS solve({name}) reported success, the stored profile has Euler-Lagrange residual {res:e} (tolerance of the last stage {tol:e})"); }
+                }
+            }
+        }
+    }
+    // C18.1c: the same for PoreProfile::solve - a hard-sphere fluid in a hard-wall slit pore (no parameter files), with the
+    // default solver and with chains that are cut off after a handful of iterations
+    {
+        use feos::hard_sphere::{FMTFunctional, FMTVersion};
+        use feos_dft::adsorption::{ExternalPotential, Pore1D, PoreSpecification};
+        use feos_dft::Geometry;
+        use typenum::P3;
+        let func = Arc::new(FMTFunctional::new(&ndarray::arr1(&[1.0]), FMTVersion::WhiteBear));
+        let pore = Pore1D::new(Geometry::Cartesian, 10.0 * ANGSTROM, ExternalPotential::HardWall { sigma_ss: 1.0 }, Some(256), None);
+        if let Ok(bulk) = State::new_pure(&func, KELVIN, 0.75 / NAV / ANGSTROM.powi::<P3>()) {
+            let ptol = 1e-11;
+            let pchains: Vec<(&str, Option<DFTSolver>)> = vec![
+                ("default", None),
+                ("picard(5) + anderson(5)", Some(DFTSolver::new(v).picard_iteration(Some(true), Some(5), Some(ptol), Some(0.05)).anderson_mixing(Some(true), Some(5), Some(ptol), None, None))),
+                ("anderson(3)", Some(DFTSolver::new(v).anderson_mixing(Some(true), Some(3), Some(ptol), None, None))),
+            ];
+            for (name, solver) in &pchains {
+                let Ok(init) = pore.initialize(&bulk, None, None) else { continue };
+                n_ok += 1;
+                if let Ok(solved) = init.solve(solver.as_ref()) {
+                    n_success += 1;
+                    if let Ok((_, _, res)) = solved.profile.residual(false) {
+                        if !(res < 10.0 * ptol) {
+                            n_bad += 1;
+                            if n_bad <= 6 { println!("WITNESS PoreProfile::solve({name}) reported success, the stored profile has Euler-Lagrange residual {res:e} (tolerance {ptol:e})"); }
+                        }
+                    }
                 }
             }
         }
